@@ -316,6 +316,231 @@ def sqlite_oracle(text, table):
     db.close()
     return None
 
+# ----------------------------------------------------------------------------- meaning of filters (coq/SqlGen/Sem.v)
+M_SCHEMA = "create table m1(id integer, age integer, name text, city text);"
+M_ROWS = [(1, 55, "Tom", "Paris"), (2, 18, "Mary", "Rome"), (3, None, "O'Neil", "Oslo"), (4, 65, "tom", None),
+          (5, -3, "", "Oxford"), (6, 18, "Ann%", "o"), (7, 0, "x'", "Pa_ris"), (8, None, None, None)]
+M_INT, M_TXT = ["age", "id"], ["name", "city"]
+M_STR = ["Tom", "Mary", "O'Neil", "a", "o", "x'", "%", "_", "", "Pa", "ris", "tom", "M", "z"]
+CMPS = [("EQ", "CEq", lambda c: c == 0), ("LT", "CLt", lambda c: c < 0), ("LE", "CLe", lambda c: c <= 0),
+        ("GT", "CGt", lambda c: c > 0), ("GE", "CGe", lambda c: c >= 0)]
+
+
+def m_gen(rng, depth):
+    """a well typed filter AST over m1: ('cmp', i, col, lit) | ('null', col) | ('and'|'or', [..]) | ('not', f) | ('has', all, col, [v..])"""
+    r = rng.random()
+    if depth <= 0 or r < 0.35:
+        if rng.random() < 0.5:
+            return ("cmp", rng.randrange(5), rng.choice(M_INT), rng.choice([0, 1, 18, 55, 65, -3, -1, 100]))
+        return ("cmp", rng.randrange(5), rng.choice(M_TXT), rng.choice(M_STR))
+    if r < 0.42:
+        return ("null", rng.choice(M_INT + M_TXT))
+    if r < 0.60:
+        return ("and", [m_gen(rng, depth - 1) for _ in range(rng.randint(2, 3))])
+    if r < 0.76:
+        return ("or", [m_gen(rng, depth - 1) for _ in range(rng.randint(2, 3))])
+    if r < 0.86:
+        return ("not", m_gen(rng, depth - 1))
+    return ("has", rng.random() < 0.5, rng.choice(M_TXT), [rng.choice(M_STR) for _ in range(rng.choice([1, 1, 2, 3]))])
+
+
+def m_src(f):
+    k = f[0]
+    if k == "cmp":
+        return "%s(%s,%s)" % (CMPS[f[1]][0], f[2], estr(f[3]) if isinstance(f[3], str) else str(f[3]))
+    if k == "null":
+        return "EQ(%s,.nil)" % f[1]
+    if k in ("and", "or"):
+        return "%s(%s)" % (k.upper(), ",".join(m_src(g) for g in f[1]))
+    if k == "not":
+        return "NOT(%s)" % m_src(f[1])
+    return "%s(%s,%s)" % ("HASALL" if f[1] else "HAS", f[2], ",".join(estr(v) for v in f[3]))
+
+
+def m_coq(f):
+    k = f[0]
+    if k == "cmp":
+        lit = "(OStr (%s))" % vf.vstr(f[3]) if isinstance(f[3], str) else "(OInt (%d))" % f[3]
+        return "(FCmp %s (OCol (%s)) %s)" % (CMPS[f[1]][1], vf.vstr(f[2]), lit)
+    if k == "null":
+        return "(FIsNull (%s))" % vf.vstr(f[1])
+    if k in ("and", "or"):
+        return "(%s [%s])" % ("FAnd" if k == "and" else "FOr", ";".join(m_coq(g) for g in f[1]))
+    if k == "not":
+        return "(FNot %s)" % m_coq(f[1])
+    return "(FHas %s (%s) [%s])" % ("true" if f[1] else "false", vf.vstr(f[2]), ";".join(vf.vstr(v) for v in f[3]))
+
+
+def m_and3(xs):
+    if any(x is False for x in xs):
+        return False
+    return None if any(x is None for x in xs) else True
+
+
+def m_or3(xs):
+    if any(x is True for x in xs):
+        return True
+    return None if any(x is None for x in xs) else False
+
+
+def m_eval(f, row):
+    """documented (three-valued) meaning, independent Python reading; row: dict"""
+    k = f[0]
+    if k == "cmp":
+        v, lit = row[f[2]], f[3]
+        if v is None:
+            return None
+        a, b = (v.encode(), lit.encode()) if isinstance(lit, str) else (v, lit)
+        return CMPS[f[1]][2]((a > b) - (a < b))
+    if k == "null":
+        return row[f[1]] is None
+    if k == "and":
+        return m_and3([m_eval(g, row) for g in f[1]])
+    if k == "or":
+        return m_or3([m_eval(g, row) for g in f[1]])
+    if k == "not":
+        x = m_eval(f[1], row)
+        return None if x is None else (not x)
+    v = row[f[2]]
+    xs = [None if v is None else (s in v) for s in f[3]]
+    return m_and3(xs) if f[1] else m_or3(xs)
+
+
+def m_shape(f):
+    """'atom' | 'conj' | 'disj': how SQL reads the unparenthesised text of f"""
+    k = f[0]
+    if k in ("cmp", "null", "and", "or"):
+        return "atom"
+    if k == "not":
+        return m_shape(f[1])
+    if len(f[3]) == 1:
+        return "atom"
+    return "conj" if f[1] else "disj"
+
+
+def m_safe(f):
+    k = f[0]
+    if k == "and":
+        return all(m_safe(g) and m_shape(g) != "disj" for g in f[1])
+    if k == "or":
+        return all(m_safe(g) for g in f[1])
+    if k == "not":
+        return m_safe(f[1]) and m_shape(f[1]) == "atom"
+    return True
+
+
+def m_safe_where(fs):
+    return m_safe(fs[0]) if len(fs) == 1 else all(m_safe(g) and m_shape(g) != "disj" for g in fs)
+
+
+POS_RE = re.compile(r"""POSITION\(('(?:[^']|'')*') IN ("(?:[^"]|"")*")\)""")
+
+
+def meaning_stage(ck, binp, quick):
+    """filters with a documented meaning: real text = gen_where, parse(lex real) = where_ast, rows SQLite returns for
+    the real text = rows selected by eval_filter (Coq, vm_compute) = rows selected by the Python reading"""
+    corpus = [[("and", [("cmp", 0, "age", 18), ("has", False, "city", ["o", "x"])])],
+              [("has", False, "name", ["om", "x"]), ("cmp", 3, "age", 0)],
+              [("not", ("has", False, "city", ["Pa", "Ro"]))], [("not", ("has", True, "city", ["a", "s"]))],
+              [("not", ("cmp", 0, "age", 18))], [("null", "city")], [("not", ("null", "age"))],
+              [("or", [("has", False, "name", ["T", "M"]), ("cmp", 1, "age", 0)])],
+              [("has", True, "name", ["o", "m"])], [("cmp", 0, "name", "x'")], [("has", False, "city", ["_"])],
+              [("and", [("cmp", 4, "name", "M"), ("cmp", 1, "name", "a"), ("or", [("cmp", 0, "id", 5), ("null", "age")])])]]
+    cases = list(corpus)
+    n = 80 if quick else 800
+    while len(cases) < n:
+        cases.append([m_gen(ck.rng, 2) for _ in range(ck.rng.choice([1, 1, 1, 2, 3]))])
+    inp, outp = os.path.join(ck.work, "min.jsonl"), os.path.join(ck.work, "mout.jsonl")
+    with open(inp, "w") as f:
+        for fs in cases:
+            f.write(json.dumps(wire({"k": "where", "filters": [m_src(g) for g in fs]})) + "\n")
+    rc, log = vf.run_bin(binp, "^TestVerifC14$", {"VERIF_IN": inp, "VERIF_OUT": outp})
+    if rc != 0:
+        ck.violation("harness-run", "harness failed on the meaning cases:\n" + log[-1500:], replay={"log": log[-3000:]}, found_input=False)
+        return
+    obs = [json.loads(l) for l in open(outp)]
+    db = sqlite3.connect(":memory:")
+    db.execute(M_SCHEMA)
+    db.executemany("insert into m1 values (?,?,?,?)", M_ROWS)
+    rows = [dict(zip(("id", "age", "name", "city"), r)) for r in M_ROWS]
+    stats = {"cases": len(cases), "precedence_unsafe": 0, "rows_compared": 0, "with_null_result": 0, "sqlite_errors": 0}
+    sqlite_ids, py_ids = [], []
+    for fs, o in zip(cases, obs):
+        text = bytes.fromhex(o["text"]).decode("utf8")
+        want = sorted(r["id"] for r in rows if all(m_eval(g, r) is True for g in fs))
+        if any(m_eval(g, r) is None for g in fs for r in rows):
+            stats["with_null_result"] += 1
+        py_ids.append(want)
+        got = None
+        if not o["err"]:
+            try:
+                got = sorted(x[0] for x in db.execute("select id from m1 " + POS_RE.sub(lambda m: "instr(%s, %s)" % (m.group(2), m.group(1)), text)))
+            except sqlite3.Error:
+                stats["sqlite_errors"] += 1
+        sqlite_ids.append(got)
+        safe = m_safe_where(fs)
+        stats["precedence_unsafe"] += 0 if safe else 1
+        stats["rows_compared"] += len(rows)
+        if o["err"] or got is None:
+            ck.violation("meaning-rejected", "a well formed documented filter is rejected (%s): %s -> %s" % (
+                "by the generator" if o["err"] else "by SQLite", [m_src(g) for g in fs], text[:200]),
+                replay={"filters": [m_src(g) for g in fs], "table": M_ROWS, "text": text})
+        elif got != want:
+            ck.violation("filter-precedence" if not safe else "filter-meaning",
+                         "filters %s are written %s; on table m1 SQLite returns rows %s, the documented meaning selects %s%s" % (
+                             [m_src(g) for g in fs], text, got, want,
+                             "" if safe else " (HAS list / NOT operand written without parentheses)"),
+                         replay={"filters": [m_src(g) for g in fs], "table": M_ROWS, "text": text, "sqlite_rows": got, "documented_rows": want})
+    ck.cov["evaluations"] += len(cases)
+    ck.cov["input_distribution"]["filter_meaning"] = stats
+    if getattr(ck, "coq_broken", None):
+        return
+    # ---- Coq: text = gen_where, parse (lex real) = where_ast, ids by eval_filter and by eval_sql (where_ast)
+    def cval(v):
+        return "VNull" if v is None else ("VInt (%d)" % v if isinstance(v, int) else "VText (%s)" % vf.vstr(v))
+    tbl = "[" + ";".join("[(%s, %s); (%s, %s); (%s, %s); (%s, %s)]" % (
+        vf.vstr("id"), cval(r[0]), vf.vstr("age"), cval(r[1]), vf.vstr("name"), cval(r[2]), vf.vstr("city"), cval(r[3])) for r in M_ROWS) + "]"
+    lines = ["From Common Require Import Base.", "From SqlGen Require Import Model Sem.", "Close Scope string_scope.", "Open Scope N_scope.",
+             "Definition tbl : list trow := %s." % tbl,
+             "Definition mask (l : list Z) : Z := fold_left (fun a i => Z.lor a (Z.shiftl 1 i)) l 0%Z."]
+    for i, (fs, o) in enumerate(zip(cases, obs)):
+        lines.append("Definition f%d : list filter := [%s]." % (i, ";".join(m_coq(g) for g in fs)))
+        lines.append("Definition t%d : str := %s." % (i, vf.vN(bytes.fromhex(o["text"]))))
+    idx = range(len(cases))
+    ex = {"text": "(%s : list nat)" % (" ++ ".join("(if str_eqb (fst (gen_where f%d)) t%d then [] else [%d%%nat])" % (i, i, i) for i in idx)),
+          "parse": "(%s : list nat)" % (" ++ ".join("(match parse_where (sql_lex t%d) with Some e => if sexpr_eqb e (where_ast f%d) then [] else [%d%%nat] | None => [%d%%nat] end)" % (i, i, i, i) for i in idx)),
+          "doc": "([%s] : list Z)" % ";".join("mask (selected_ids tbl f%d)" % i for i in idx),
+          "sql": "([%s] : list Z)" % ";".join("mask (sql_selected_ids tbl (where_ast f%d))" % i for i in idx),
+          "safe": "(%s : list nat)" % (" ++ ".join("(if safe_where f%d then [] else [%d%%nat])" % (i, i) for i in idx))}
+    okk, res = vf.coq_eval(GROUP, ck.work, "meaning", "\n".join(lines), ex)
+    if not okk:
+        ck.violation("correspondence-eval", "model evaluation (meaning) failed:\n" + str(res)[-1500:], replay={"log": str(res)[-3000:]}, found_input=False)
+        return
+    mask = lambda ids: sum(1 << i for i in ids)     # noqa: E731
+    for i in res["text"]:
+        ck.violation("corr-gen-where", "gen_where and the real WhereClause disagree on %s: real %s" % (
+            [m_src(g) for g in cases[i]], bytes.fromhex(obs[i]["text"]).decode("utf8", "replace")[:300]),
+            replay={"filters": [m_src(g) for g in cases[i]]}, found_input=False)
+    for i in res["parse"]:
+        if i in res["text"]:
+            continue
+        ck.violation("corr-parse-where", "the real WHERE text of %s does not parse to where_ast (SQL precedence model): %s" % (
+            [m_src(g) for g in cases[i]], bytes.fromhex(obs[i]["text"]).decode("utf8", "replace")[:300]),
+            replay={"filters": [m_src(g) for g in cases[i]]}, found_input=False)
+    for i in idx:
+        if res["doc"][i] != mask(py_ids[i]):
+            ck.violation("corr-eval-filter", "eval_filter (Coq) and the Python reading disagree on %s: %s vs %s" % (
+                [m_src(g) for g in cases[i]], res["doc"][i], py_ids[i]), replay={"filters": [m_src(g) for g in cases[i]]}, found_input=False)
+        if sqlite_ids[i] is not None and res["sql"][i] != mask(sqlite_ids[i]):
+            ck.violation("corr-eval-sql", "eval_sql (where_ast) and SQLite disagree on %s (%s): model rows mask %s, SQLite %s" % (
+                [m_src(g) for g in cases[i]], bytes.fromhex(obs[i]["text"]).decode("utf8", "replace")[:200], res["sql"][i], sqlite_ids[i]),
+                replay={"filters": [m_src(g) for g in cases[i]], "table": M_ROWS}, found_input=False)
+        if (i in res["safe"]) == m_safe_where(cases[i]):
+            ck.violation("corr-safe", "safe_where (Coq) and the Python reading disagree on %s" % [m_src(g) for g in cases[i]],
+                         replay={"filters": [m_src(g) for g in cases[i]]}, found_input=False)
+    stats["coq_cases"] = len(cases)
+    ck.cov["traces_validated_against_impl"] = ck.cov.get("traces_validated_against_impl", 0) + len(cases) - len(res["text"])
+
 
 def run(ck):
     quick = ck.tier == "quick"
@@ -387,7 +612,7 @@ def run(ck):
                          replay={"broken": "coq/" + grp, "log": log[-3000:]}, found_input=False)
         return
     res = {"corr": [], "lex": [], "fuel": []}
-    CH = 400
+    CH = 600
     for lo in range(0, len(cases), CH):
         lines = ["From Common Require Import Base.", "From SqlGen Require Import Model.", "Close Scope string_scope.", "Open Scope N_scope."]
         idx = range(lo, min(lo + CH, len(cases)))
@@ -423,3 +648,5 @@ def run(ck):
             replay={"cases": [cases[i]], "text": text}, found_input=found)
     for i in res["fuel"]:
         ck.violation("model-fuel", "model ran out of fuel on %s" % json.dumps(cases[i])[:300], replay={"cases": [cases[i]]}, found_input=False)
+    if not ck.replay_file:
+        meaning_stage(ck, binp, quick)
